@@ -102,6 +102,8 @@ def build_description(spec, di):
         desc["post_model_decode"] = _mod({"func": "hook", "params": {"key": f"d{di}:post_model"}}, use_mod)
     for si, s in enumerate(spec.get("systems", [])[:80]):
         params = {"id": f"sys{si}", "priority": int(s.get("priority", 0))}
+        if s.get("junk"):
+            params["model"] = "not-a-model"
         for k in ("frequency", "start", "end"):
             if s.get(k) is not None:
                 params[k] = int(s[k])
@@ -114,7 +116,10 @@ def build_description(spec, di):
             sd["post_system_init"] = _mod({"func": "hook", "params": {"key": f"d{di}:post_sys{si}"}}, use_mod)
         desc["systems"].append(sd)
     for gi, g in enumerate(spec.get("groups", [])[:8]):
-        gd = _mod({"name": "DAgent", "number": max(0, min(int(g.get("n", 1)), 300)), "params": {"prefix": f"g{gi}_"}}, use_mod)
+        gparams = {"prefix": f"g{gi}_"}
+        if g.get("junk"):                      # keys the decoder itself injects: its own values must win
+            gparams.update({"agent_index": 7, "model": "not-a-model"})
+        gd = _mod({"name": "DAgent", "number": max(0, min(int(g.get("n", 1)), 300)), "params": gparams}, use_mod)
         if g.get("pre"):
             gd["pre_agent_init"] = _mod({"func": "swap_env_hook" if g.get("swap") else "hook", "params": {"key": f"d{di}:pre_grp{gi}"}}, use_mod)
         if g.get("post"):
@@ -278,7 +283,7 @@ def strategy(tier):
     system = st.fixed_dictionaries({"priority": wone_of(st.integers(-2, 3), st.integers(-10 ** 6, 10 ** 6)),
                                     "frequency": wone_of(st.none(), st.integers(1, 4)), "start": wone_of(st.none(), st.integers(-3, 3)),
                                     "end": wone_of(st.none(), st.integers(-1, 9)), "pre": st.booleans(), "post": st.booleans()})
-    group = st.fixed_dictionaries({"n": st.integers(0, 4), "pre": st.booleans(), "post": st.booleans(),
+    group = st.fixed_dictionaries({"n": st.integers(0, 4), "pre": st.booleans(), "post": st.booleans(), "junk": st.sampled_from([False, False, True]),
                                    "swap": st.sampled_from([False, False, False, True])})
     desc = st.fixed_dictionaries({"systems": st.lists(system, max_size=4), "groups": st.lists(group, max_size=4),
                                   "hooks": st.fixed_dictionaries({"pre_model": st.booleans(), "post_model": st.booleans()}),
